@@ -632,3 +632,6 @@ PROPS["C04"]["assumptions"] = ["each actor edits at one replica (built into the 
 # specification (|K| rounds of the visibility iteration, recomputed after every command) is cubic, so few cases: quick 1 (a chain), thorough 6;
 # a run on a changed source tree multiplies the quick budget by 3 = one case of each family.
 PROPS["C15"]["profiles"] = PROPS["C15"]["profiles"] + [dict(name="merkle_wide", quick=1, thorough=6)]
+
+PROPS["C16"]["required_theorems"] += ["Crdt.C16.map_ok_iff", "Crdt.C16.map_new_key_ok_iff"]
+PROPS["C16"]["explanation"] += " Map: exact verdict for all states and value types (map_ok_iff: map-clock gap, ENTRY-clock gap, nested verdict); the entry-clock clause is the defect F7 – e.g. only an actor's first update can create a key (map_new_key_ok_iff)."
